@@ -28,6 +28,12 @@ var solvers = []solverCfg{
 // script interleaves assertions and obligation queries in generation order: an obligation sees only
 // the assumptions made before it (assert-then-assume), never its own.
 func (e *Enc) script(obs []*Oblig, flagsOff map[string]bool, model bool) string {
+	return e.scriptT(obs, flagsOff, model, 0)
+}
+
+// scriptT: as script; with defaultMs > 0 (z3 only) obligations flagged shortMs get their own, shorter
+// per-query time limit (obligations that were never discharged on the pinned tree are not worth the full one).
+func (e *Enc) scriptT(obs []*Oblig, flagsOff map[string]bool, model bool, defaultMs int) string {
 	var b bytes.Buffer
 	b.WriteString("(set-option :produce-models true)\n(set-logic ALL)\n")
 	for _, l := range e.d.lines {
@@ -49,7 +55,13 @@ func (e *Enc) script(obs []*Oblig, flagsOff map[string]bool, model bool) string 
 	for i := 0; i <= len(e.lines); i++ {
 		for k < len(obs) && obs[k].at <= i {
 			b.WriteString("; " + obs[k].Name + "\n")
-			b.WriteString(obQuery(obs[k], model))
+			if defaultMs > 0 && obs[k].shortMs > 0 && obs[k].shortMs < defaultMs {
+				b.WriteString(fmt.Sprintf("(set-option :timeout %d)\n", obs[k].shortMs))
+				b.WriteString(obQuery(obs[k], model))
+				b.WriteString(fmt.Sprintf("(set-option :timeout %d)\n", defaultMs))
+			} else {
+				b.WriteString(obQuery(obs[k], model))
+			}
 			k++
 		}
 		if i < len(e.lines) {
@@ -112,6 +124,9 @@ type solveOpts struct {
 	dumpDir   string
 	noVacuity bool
 	crossCheck bool // thorough: every solver-discharged obligation is also put to the other solvers
+	knownUnproved map[string]bool // obligations the baseline lists as unproved: one attempt, no portfolio retry
+	prop string // the property being checked ("" = all): postconditions tagged only for other properties get one short attempt
+	relevant func(o *Oblig) bool // (quick tier) is o part of this check? others get one short attempt
 }
 
 // solve discharges the obligations of one function.
@@ -127,6 +142,30 @@ func (e *Enc) solve(opt solveOpts) {
 	}
 	if len(pend) == 0 {
 		return
+	}
+	other := map[*Oblig]bool{}
+	for _, o := range pend {
+		if opt.knownUnproved[o.Name] {
+			o.shortMs = 1500
+		}
+		if opt.relevant != nil && o.Family != "LOOP" && o.Family != "VAC" && !opt.relevant(o) {
+			// not an obligation of this property's check (a SAFE obligation outside its anchor files, ...)
+			o.shortMs = 1500
+			other[o] = true
+		}
+		if opt.prop != "" && (o.Family == "POST" || o.Family == "COPY") && len(o.tags) > 0 && !hasProp(o, opt.prop) {
+			// a clause that serves other properties only: not part of this check (it is still assumed once
+			// checked, as in every run)
+			o.shortMs = 1500
+			other[o] = true
+		}
+	}
+	t00 := time.Now()
+	phase := func(n string) {
+		if os.Getenv("GOVC_PHASE") != "" && time.Since(t00) > 2*time.Second {
+			fmt.Fprintf(os.Stderr, "phase %s %s %.1fs\n", shortName(e.top), n, time.Since(t00).Seconds())
+		}
+		t00 = time.Now()
 	}
 	off := map[string]bool{}
 	// Houdini: drop automatic invariant candidates until the remaining ones are inductive
@@ -191,6 +230,7 @@ func (e *Enc) solve(opt solveOpts) {
 		}
 	}
 	e.flagsOff = off
+	phase("houdini")
 	var rest []*Oblig
 	for _, o := range pend {
 		if o.houdini > 0 {
@@ -209,23 +249,25 @@ func (e *Enc) solve(opt solveOpts) {
 		for _, cfg := range solvers[1:] {
 			var again []*Oblig
 			for _, o := range rest {
-				if o.Verdict != "unsat" && o.Verdict != "sat" {
+				if o.Verdict != "unsat" && o.Verdict != "sat" && !opt.knownUnproved[o.Name] && o.Family != "VAC" && !other[o] {
 					again = append(again, o)
 				}
 			}
 			if len(again) == 0 {
 				break
 			}
-			e.runBatch(cfg, again, off, opt.retryMs)
+			// the undecided rest is retried with the longer limit, two queries per solver process
+			e.runBatchC(cfg, again, off, opt.retryMs, 2)
 		}
 	}
+	phase("main+portfolio")
 	// vacuity: an obligation whose program point is unreachable under the assumptions proves nothing.
 	// One reachability query per distinct program point that carries a discharged obligation.
 	if !opt.noVacuity {
 		byReach := map[string][]*Oblig{}
 		var order []string
 		for _, o := range pend {
-			if o.Family == "VAC" || o.Verdict != "unsat" || o.reach == "true" || o.cond == "false" {
+			if o.Family == "VAC" || o.Verdict != "unsat" || o.reach == "true" || o.cond == "false" || other[o] {
 				continue // (an obligation "false" is itself the claim that its point is unreachable)
 			}
 			if _, ok := byReach[o.reach]; !ok {
@@ -240,7 +282,7 @@ func (e *Enc) solve(opt solveOpts) {
 		}
 		// probes must be in generation order for the interleaved script
 		sort.SliceStable(probes, func(i, j int) bool { return probes[i].at < probes[j].at })
-		e.runBatchC(solvers[0], probes, off, opt.quickMs, 6) // satisfiable queries are the expensive ones
+		e.runBatchC(solvers[0], probes, off, opt.quickMs, 3) // satisfiable queries are the expensive ones
 		for _, p := range probes {
 			if p.Verdict == "unsat" {
 				for _, o := range byReach[p.reach] {
@@ -250,6 +292,7 @@ func (e *Enc) solve(opt solveOpts) {
 			}
 		}
 	}
+	phase("vacuity")
 	if opt.crossCheck {
 		var proved []*Oblig
 		for _, o := range pend {
@@ -285,7 +328,13 @@ func (e *Enc) solve(opt solveOpts) {
 // runBatch splits large batches over several solver processes (the assertions are cheap to replay, the
 // queries are not).
 func (e *Enc) runBatch(cfg solverCfg, obs []*Oblig, off map[string]bool, ms int) {
-	e.runBatchC(cfg, obs, off, ms, 48)
+	chunk := 48
+	if len(obs) > 150 {
+		// a large function: later queries sit behind a long script and are the slow ones; smaller chunks
+		// spread them over the solver processes
+		chunk = 16
+	}
+	e.runBatchC(cfg, obs, off, ms, chunk)
 }
 
 func (e *Enc) runBatchC(cfg solverCfg, obs []*Oblig, off map[string]bool, ms int, chunk int) {
@@ -316,14 +365,18 @@ func (e *Enc) runBatchC(cfg solverCfg, obs []*Oblig, off map[string]bool, ms int
 	wg.Wait()
 }
 
-var solverSlots = make(chan struct{}, 12)
+var solverSlots = make(chan struct{}, 16)
 
 func (e *Enc) runBatch1(cfg solverCfg, obs []*Oblig, off map[string]bool, ms int) {
 	if len(obs) == 0 {
 		return
 	}
 	t0 := time.Now()
-	vs, raw := runScript(cfg, e.script(obs, off, false), len(obs), ms)
+	dms := 0
+	if strings.HasPrefix(cfg.name, "z3") {
+		dms = ms
+	}
+	vs, raw := runScript(cfg, e.scriptT(obs, off, false, dms), len(obs), ms)
 	el := int(time.Since(t0).Milliseconds())
 	if os.Getenv("GOVC_BATCH") != "" && el > 1000 {
 		fmt.Fprintf(os.Stderr, "batch %s n=%d %dms\n", cfg.name, len(obs), el)
